@@ -3,6 +3,13 @@
 
 Reference calendar of the oracle: Python's `datetime.date` (toordinal / fromordinal / weekday) and
 `calendar.monthrange` - never the Lean model, never hotxlfp's own helpers.
+
+Case kinds (see RULE for pools and counts):
+  ymd, hms, iso, serial, shorty, pair, wtype, edate   model comparison + oracle; a seeded sample of them is repeated with a
+                                                       'tz' key = the process time zone during the implementation call (TZS)
+  misc, formula                                        model comparison only (type juggling, wrong arity, end-to-end formulas)
+  sw_dates, sw_serial, sw_pairs, sw_edate              sharded direct-call sweeps, oracle only (request -> None)
+  sw_model (thorough)                                  the Lean model's calendar against datetime on every day 1900..9999
 """
 import calendar
 import datetime
@@ -18,38 +25,108 @@ FUNCTIONS = [_DT + n for n in ('DATE', 'TIME', 'DATEVALUE', 'TIMEVALUE', 'YEAR',
                                'DAYS', 'DATEDIF', 'EDATE', 'WEEKDAY')] + \
             ['hotxlfp.formulas.utils:parse_date', 'hotxlfp.formulas.utils:serialize_date', 'hotxlfp.formulas.utils:parse_number',
              'hotxlfp.formulas.utils:any_is_error', 'hotxlfp.formulas.utils:epoch_seconds', 'hotxlfp.helper.number:to_number']
-RULE = ('(a) ymd: YEAR/MONTH/DAY/WEEKDAY(type absent,1,2,3) of DATE(y,m,d) on every day of 1900, 1904, 2000, 2100, 2400, 9999, the first and '
-        'last day of every month (quick: of ~250 years incl. every century year, model-compared; all years 1900..9999 as a direct-call sweep; every day of 64 seeded decades), '
-        'seeded dates elsewhere; thorough: ALL 2 958 465 valid dates 1900..9999 by direct calls (sharded over processes). '
-        '(b) hms: HOUR/MINUTE/SECOND of TIME(h,m,s): thorough all 86 400 triples, quick a lattice (all hours x {0,1,29,30,58,59}^2) + seeded. '
-        '(c) iso: the six components read from ISO text YYYY-MM-DD[(T| )HH:MM[:SS]] of seeded date-times. '
-        '(d) serial: YEAR/MONTH/DAY of whole-day serials 61..2958465 = ymd of 1899-12-30 + serial days (quick: boundaries, month ends, seeded; '
-        'thorough: every serial). (e) shorty: DATE(y,m,d) for 0 <= y < 1900 = DATE(1900+y,m,d). '
-        '(f) pair: DAYS and DATEDIF d/m/y/ym (md, yd model-compared only) on seeded pairs of dates and on pairs within +-400 days of each century '
-        'boundary 1900, 2000, .., 9900 and of the end of 9999 (quick: seeded pairs + all pairs within +-3 days; thorough: ALL pairs within +-400 days '
-        'of every century boundary and of 9999-12-31, as direct-call sweeps); both orders. '
-        '(g) weekday types 0, 4, 11, -1, 2.5 (and text, blank, logical) on seeded dates. (h) edate: seeded dates (incl. month ends, 29 Feb, '
-        '1900-01-01, 9999-12-31) x offsets in -120000..120000 (boundaries 0, +-1, +-11, +-12, +-13, +-120000, the offsets that land on 1900-01 / '
-        '9999-12 and just outside, seeded others). (i) misc: type juggling (text, logicals, floats, blank, errors, arrays, date-times, wrong arity, '
-        'TIMEVALUE, DATEVALUE, EDATE default-date branch, DATEDIF unit case / non-text unit) compared with the model only. (j) formula: end-to-end '
-        'through Parser.parse vs the model evaluator. thorough also compares the model\'s calendar with datetime on every day 1900..9999. '
-        'Non-trivial = the case exercises a valid calendar date / time (not an error-only input).')
-TRUSTED = ['Python\'s datetime.date / calendar.monthrange as the reference proleptic Gregorian calendar of the oracle '
-           '(the Lean transcription of _ymd2ord/_ord2ymd is proved lawful for all years and compared with datetime on every day 1900..9999 in the thorough tier)',
+RULE = ('quick ~32 500 cases (~118 000 at scale 5), thorough ~320 000; counts below: quick, thorough in brackets; seeded '
+        'counts x scale (5 in quick when a modelled function changed or the Lean build broke); duplicates dropped. every case '
+        'but the sw_* shards is compared with the Lean model (ints, text, errors exact; floats within 4 ulp or 1e-9 relative; '
+        'date-times within 2 us + 2^-49 relative; a model answer `(o ..)` = no opinion, not compared); (a)-(h) and the sweeps '
+        'are also judged by the oracle (datetime, exact ints). seeded date = uniform day of 1900-01-01..9999-12-31. (a) ymd: '
+        'YEAR/MONTH/DAY/WEEKDAY(type absent,1,2,3) of DATE(y,m,d) on every day of 1900, 1904, 2000, 2100, 2400, 9999; the '
+        'first and last day of every month of the 81 century years, 1901, 1903, 1904, 1996, 2096, 2104, 9996, 9999 and 150 '
+        '(1500) seeded years; 1500 (20000) seeded dates; every 11th of these as one array formula through Parser.parse with '
+        'variables, the rest as direct calls of the builtins (a raised exception = the error value); 16 fixed triples: 14 '
+        'invalid or outside 1900..9999 (29 Feb of common years, 30 Feb, 31 Apr, month 13/0/-1, day 0/32, years '
+        '10000/-1899/-1900: model only) and the valid 8099-12-31, 8100-01-01. (b) hms: HOUR/MINUTE/SECOND of TIME(h,m,s): '
+        'thorough all 86 400 triples, quick a lattice (all hours x {0,1,29,30,58,59}^2 = 864) + 600 seeded; 5 out-of-range '
+        'triples (hour 24, -1, minute 60, second 60) model only. (c) iso: the six components read from ISO text of the 23 '
+        'SPECIAL_DATES + 500 (6000) seeded dates, five forms in turn: YYYY-MM-DD alone, with T or a blank + HH:MM:SS, with T '
+        'or a blank + HH:MM (absent parts must read 0); seeded time of day, every 7th from {00:00:00, 23:59:59, 12:00:00, '
+        '00:00:01}. (d) serial: YEAR/MONTH/DAY of whole-day serials 61..2958465 = ymd of 1899-12-30 + serial days: 15 fixed '
+        '(61..63, 366/367, 1 Jan, 29 Feb, 1 Mar 2000, 1 Jan, 28 Feb, 1 Mar 2100, 2958100/01, 2958464/65), the month ends of '
+        '1900, 2000, 2100, 9999 and 40 (400) seeded years, 1200 (20000) seeded. (e) shorty: DATE(y,m,d) for 0 <= y < 1900 = '
+        'DATE(1900+y,m,d) = datetime(1900+y,m,d): y in {0, 1, 99, 100, 119, 120, 500, 1000, 1898, 1899} x {1 Jan, 28 Feb, 29 '
+        'Feb, 1 Mar, 31 Dec} (29 Feb of a common year: model only) + 300 (3000) seeded valid ones. (f) pair: DAYS(b,a) and '
+        'DATEDIF(a,b) d/m/y/ym (md, yd model-compared only) on 2500 (30000) seeded pairs of whole dates in either order (30 % '
+        'independent, 30 % within +-800 days, 40 % borrow neighbourhood: year +-3, any month, day of month +-1); per boundary '
+        '(1 Jan of the 81 century years, 9999-12-31) 6 (60) seeded pairs within +-400 days; all pairs within +-3 days of a '
+        'boundary (thorough every boundary; quick 1900, 2000, 9999-12-31, each other one with probability 0.08); all 23x23 '
+        'pairs of SPECIAL_DATES. (g) wtype: WEEKDAY(date, t) on SPECIAL_DATES + 30 (200) seeded dates x 19 types: 1, 2, 3, '
+        '1.0, 2.0, 3.0 (true weekday), 0, 4, 11, 17, -1, 1.5, 2.5 (#NUM!), "1", "", "x", blank, TRUE, FALSE (model only). (h) '
+        'edate: SPECIAL_DATES (month ends, 29 Feb, 1900-01-01, 9999-12-31, ..), the last day of Jan, Feb, Mar, Dec of 1900, '
+        '2000, 2023, 2024, 9999 and 150 (1500) seeded dates, each x offsets 0, +-1, +-11, +-12, +-13, 24, +-119999, +-120000, '
+        'those landing on 1899-12, 1900-01, 1900-02, 9999-11, 9999-12, 10000-01, 6 seeded in +-120000, 6 in +-40, 8 landing '
+        'inside 1900-01..9999-12; offsets outside -120000..120000 are dropped. (i) misc, compared with the model only: direct '
+        'calls with juggled types - YEAR..SECOND, DATEVALUE, TIMEVALUE, WEEKDAY on 52 values (13 date-times incl. year 1, '
+        '1899-12-31, times of day, microseconds; blank, logicals, serials below 61, fractions, negatives, 2958465/66, 1e12, '
+        'numeric / ISO / impossible-date text, 3 errors, lists) and with 0 and 3 arguments; DATE and TIME on 500 (4000) seeded '
+        'triples from a pool of 30 (numbers, logicals, blank, text, floats, error, list, date-time; TIME also 23, 24, 59, 60) '
+        'and with 2 and 4 arguments; DATEDIF (20 units: the six in lower / upper / mixed case, wrong text, non-text) and DAYS '
+        'on 700 (6000) seeded pairs from a pool of 22 and on all 13x13 date-time pairs (d, md, yd, YM); DATEDIF md / yd on 600 '
+        '(6000) seeded whole-date pairs; EDATE on 22 starts (blank = default-date branch) x 28 month values, blank start x '
+        'offsets -40..40 and 60 (300, not scaled) seeded, wrong arity; WEEKDAY on the 52 values x 8 types. (j) formula: 49 '
+        'fixed + 150 (1500) seeded formulas from 10 templates (components of DATE, WEEKDAY, EDATE, DAY(EDATE), DATEDIF '
+        'd/m/y/ym, DAYS, YEAR of ISO text, DAY of a serial) end-to-end through Parser.parse, result or error vs the model '
+        'evaluator. (k) time zones: 400 (3000) seeded cases of (a)-(h) are run a second time while the process sits in one of '
+        '4 POSIX zones (TZ + time.tzset around the implementation call, restored afterwards): CET-1CEST and EST5EDT with '
+        'daylight saving, XYZ-9 and NPT-5:45 fixed; same model answer and same oracle (naive date-times must not be read in '
+        'the local zone). (l) sweeps: direct calls, oracle only, one case per shard (it reports the number of failing inputs '
+        'and the first 5); all shards of a run are computed at the first one, in up to 8 forked processes. sw_dates = (a) with '
+        'results of exact type int: thorough ALL 2 958 464 dates 1900..9999 (81 shards); quick the month ends of all years '
+        '1900..9999 (6 shards) and every day of the decades 1900s, 2000s, 2100s, 9990s + 60 seeded ones. sw_serial = (d): '
+        'thorough every serial 61..2958465 (30 shards), quick every 97th (30 500). sw_pairs = DAYS and DATEDIF d/m/y/ym on ALL '
+        'ordered pairs within +-w days of a boundary: thorough w=400 at all 82 boundaries, quick w=25 at 1900, 2000, 2100, '
+        '2400, 9999-12-31. sw_edate = seeded (date, offset) pairs, thorough 16 x 60000, quick 4 x 15000 (30 % of the dates in '
+        'the last 4 days of a month; offsets 50 % in +-120000, 30 % landing between 14 months before 1900-01 and 14 months '
+        'after 9999-12, 20 % in +-30). sw_model (thorough, 27 shards, own driver batch): the MODEL\'s YEAR, MONTH, DAY (at the '
+        'last microsecond of the day) and WEEKDAY type 3 against datetime on every day 1900..9999; a mismatch is a model '
+        'disagreement. search (a proof or the correspondence broke, no failing input yet): the quick generator again at scale '
+        '4 without misc / formula, oracle only, stops at the first failure. no time or step budget; shrink is the identity. '
+        'Non-trivial = ymd / shorty with a valid date in range, hms in range, wtype with a numeric type, misc answered by a '
+        'number or date-time, formula without error; every iso, serial, pair, edate case counts; a sweep shard counts as one '
+        'case (no weight).')
+TRUSTED = ['Python\'s datetime.date / calendar.monthrange as the reference proleptic Gregorian calendar of the oracle (the '
+           'Lean transcription of _ymd2ord/_ord2ymd is proved lawful for all years and compared with datetime on every day '
+           '1900..9999 by sw_model in the thorough tier)',
            'dateutil.parser.parse on text other than ISO-8601 YYYY-MM-DD[(T| )HH:MM[:SS]] is library behaviour (not modelled)',
-           'float arithmetic of serialize_date on date-times with a non-dyadic time of day (model: exact rationals; compared within 4 ulp)',
-           'DATEDIF units d / yd truncate a FLOAT difference of serials: for date-times exactly n days apart with a non-dyadic time of day the '
-           'float difference can be n - 1e-11 and the implementation returns n - 1 (the model, exact rationals, returns n); such inputs are outside '
-           'the statement (whole dates) and are not generated',
-           'TODAY / NOW read the clock: parameters, not modelled']
-ASSUMPTIONS = ['"calendar difference in days" (DAYS, DATEDIF unit d) is read on dates from 1 March 1900 on (both operands): dates before 1 March 1900 '
-               'follow Excel\'s 1900 system with its phantom 29 Feb and hotxlfp\'s 1900-01-01 -> 0; property C13 governs them '
-               '(there DAYS/DATEDIF d are compared with the model only); units m, y, ym are component-based and judged everywhere',
-               'DAYS(end, start) is the signed calendar difference; "#NUM! when the start is later than the end" is read for DATEDIF (the code of DAYS has no such check)',
-               'whole-day dates only in the oracle for DAYS/DATEDIF (date-times with a time of day are compared with the model only)',
-               'ISO text means YYYY-MM-DD optionally followed by T or a blank and HH:MM[:SS]',
-               'DATEDIF units md, yd and EDATE\'s default-date branch (blank start date) are outside the statement: model comparison only',
-               'DATEDIF of two equal dates is 0 (d, m, y, ym all agree with that)']
+           'float arithmetic of serialize_date / epoch_seconds on date-times with a non-dyadic time of day (model: exact '
+           'rationals): the model comparison accepts floats within 4 ulp or 1e-9 relative and date-times within 2 microseconds '
+           '+ 2^-49 of the microsecond count since 1900-01-01; the oracle compares exactly',
+           'DATEDIF units d / yd truncate a FLOAT difference of serials: for date-times exactly n days apart with a non-dyadic '
+           'time of day the float difference can be n - 1e-11 and the implementation returns n - 1 (the model, exact '
+           'rationals, returns n); such inputs are outside the statement (whole dates) and are not generated',
+           'TODAY / NOW read the clock: parameters, not modelled',
+           'direct calls go through call(): an exception raised by a builtin becomes the error value via error.from_message, '
+           'as in Parser.call_function; only every 11th ymd case and the formula cases pass through Parser.parse itself',
+           'the process time zone is switched with os.environ[\'TZ\'] + time.tzset() (POSIX zone strings honoured by the C '
+           'library) and restored after each call; sweeps and model answers are not produced under another zone',
+           'sweeps run in forked worker processes (multiprocessing, at most 8) and are cached per shard; a crash of a shard is '
+           'raised as a harness error, not a verdict; misc and formula cases have no oracle, the Lean model is their only judge']
+ASSUMPTIONS = ['"calendar difference in days" (DAYS, DATEDIF unit d) is read on dates from 1 March 1900 on (both operands): '
+               'dates before 1 March 1900 follow Excel\'s 1900 system with its phantom 29 Feb and hotxlfp\'s 1900-01-01 -> 0; '
+               'property C13 governs them (there DAYS/DATEDIF d are compared with the model only); units m, y, ym are '
+               'component-based and judged everywhere',
+               'DAYS(end, start) is the signed calendar difference; "#NUM! when the start is later than the end" is read for '
+               'DATEDIF (the code of DAYS has no such check), for all four units d, m, y, ym and also before 1 March 1900',
+               'whole-day dates only in the oracle for DAYS/DATEDIF (date-times with a time of day are compared with the model '
+               'only)',
+               'whole months = 12 * year difference + month difference, less 1 when the end\'s day of month is smaller than '
+               'the start\'s; whole years less 1 when the end\'s (month, day) is smaller; ym = whole months mod 12',
+               'ISO text means zero-padded YYYY-MM-DD optionally followed by T or a blank and HH:MM[:SS]; absent time parts '
+               'read 0',
+               'DATEDIF units md, yd and EDATE\'s default-date branch (blank start date) are outside the statement: model '
+               'comparison only',
+               'DATEDIF of two equal dates is 0 (d, m, y, ym all agree with that)',
+               'components, weekdays and DATEDIF results must be Python ints (no bool, no float); DAYS may be an int or a '
+               'float equal to the day count; DATE (years 0..1899) and EDATE results must be date-times at midnight',
+               'WEEKDAY without a type = type 1 (Sunday 1 .. Saturday 7), 2 = Monday 1 .. Sunday 7, 3 = Monday 0 .. Sunday 6; '
+               'floats 1.0, 2.0, 3.0 count as 1, 2, 3; every other number (0, 4, 11, 17, -1, 1.5, 2.5; Excel\'s types 11..17 '
+               'included) must give #NUM!; text, blank and logical types are not judged',
+               'a whole-day serial s in 61..2958465 means 1899-12-30 + s days (serials below 61 belong to C13: model '
+               'comparison only)',
+               'EDATE: start a whole date 1900..9999, offset a whole number in -120000..120000; #NUM! exactly when the target '
+               'YEAR is outside 1900..9999, else the target month with the day clamped to its length',
+               'DATE with 0 <= y < 1900 is judged only where (1900+y, m, d) is a valid date; invalid (y,m,d), years outside '
+               '0..9999 and h, m, s outside 0..23 / 0..59 / 0..59 are outside the statement: model comparison only',
+               'the answers do not depend on the time zone of the process (same oracle under the 4 zones of TZS)']
 EXHAUSTIVE = {'quick': False, 'thorough': False}
 
 D = datetime.datetime
@@ -220,7 +297,8 @@ def cases(rng, ctx):
     for i, c in enumerate(out):
         if i % 11 == 0:
             c['via'] = 'parse'
-    # invalid calendar dates: model comparison (the constructor refuses them)
+    # invalid calendar dates and years outside 1900..9999: model comparison only (DATE(-1899,1,1) is year 1, the constructor
+    # refuses the others); 8099-12-31 and 8100-01-01 are valid dates and are judged by the oracle like the rest
     for (y, m, d) in [(1900, 2, 29), (2100, 2, 29), (2001, 2, 29), (2000, 2, 30), (2020, 4, 31), (2020, 13, 1), (2020, 0, 1), (2020, 1, 0),
                       (2020, 1, 32), (2020, -1, 1), (10000, 1, 1), (9999, 12, 32), (8100, 1, 1), (8099, 12, 31), (-1899, 1, 1), (-1900, 1, 1)]:
         add({'kind': 'ymd', 'y': y, 'm': m, 'd': d})
@@ -362,7 +440,7 @@ def cases(rng, ctx):
         for k in range(4):
             sw.append({'kind': 'sw_edate', 'seed': ctx.get('seed', 0) * 1000 + k, 'n': 15000 * scale})
     # the same questions while the PROCESS sits in another time zone (naive date-times must not be read in it): a seeded
-    # sample of the cases above, in a zone east of UTC with daylight saving, one west of it, and a fixed offset
+    # sample of the cases above, in a zone east of UTC with daylight saving, one west of it, and two fixed offsets (TZS)
     plain = [c for c in out if c['kind'] in ('ymd', 'serial', 'pair', 'wtype', 'edate', 'hms', 'iso', 'shorty')]
     for c in rng.sample(plain, min(len(plain), (3000 if thorough else 400) * scale)):
         c2 = dict(c)
